@@ -63,6 +63,11 @@ def cases(chk, env):
         sp["pool"] = rng.choice([1, 1, 2])
         out.append(sp)
         n += 1
+    # the CONFIGURED pool: the size comes from -c, from an XVC_ environment variable, from .xvc/config.local.toml or
+    # from .xvc/config.toml (the corpus keeps -c); every source must reach the scheduler with its own value
+    for sp in out:
+        if not str(sp.get("label", "")).startswith("corpus:"):
+            sp["pool_via"] = rng.choice(["cli", "cli", "env", "local", "project"])
     return out
 
 
@@ -100,7 +105,7 @@ def run(chk, replay=None):
         chk.cov["distribution"] = stats
         for sp in specs[:2] + specs[-2:]:
             chk.sample(json.dumps(S.strip_spec(sp))[:400])
-    chk.cov["rule"] = ("one evaluation = one real `xvc pipeline run` with process_pool_size set by -c, trace replayed through the extracted model (acquire / release lines carry the exact counter values), "
+    chk.cov["rule"] = ("one evaluation = one real `xvc pipeline run` with process_pool_size set by -c, an XVC_ variable, .xvc/config.local.toml or .xvc/config.toml (spec field pool_via), trace replayed through the extracted model (acquire / release lines carry the exact counter values), "
                        "journal judged: max overlap of [S,E] intervals <= pool, and for pool 1 the order is compatible with the graph. Cases: corpus (P11 witness first); k independent steps x pool 1..k "
                        "(k <= %d) x jitter seeds; failing / never steps; root -> k children -> sink with pool 1..k; all DAGs on 3 steps x pool 1,2; random 4-6-step graphs with file edges x pool 1..3. "
                        "non-trivial = more commands started than the pool has slots; distinct by spec" % (6 if chk.tier == "quick" else 8))
